@@ -151,20 +151,25 @@ def solve_one(job):
                          'secs': round(secs, 3),
                          **({'info': info} if info and st not in ('unsat',) else {})})
 
-    # stage 1: quick z3 API on each variant
+    # An obligation is discharged iff SOME back end answers unsat.  A `sat` of one back end is only believed
+    # when no other back end refutes it (z3's sequence theory has produced spurious `sat` on quantified goals).
+    sat_seen = None
     for vi, text in enumerate(texts):
         st, info, secs = run_z3_api(text, min(2000, budget * 1000), want_model=True)
         record('z3-5.1', vi, st, info, secs)
         if st == 'unsat':
             verdict = 'unsat'
             break
-        if st == 'sat':
-            verdict = 'sat'
-            model = info.get('model')
-            break
-    # stage 2: cvc5, then longer z3, then z3 4.8
+        if st == 'sat' and sat_seen is None:
+            sat_seen = info.get('model') or {}
+            if expect == 'sat':
+                verdict = 'sat'         # a reachability cover: one model is enough
+                model = sat_seen or None
+                break
     if verdict is None:
         for backend in ('cvc5', 'z3-5.1-long', 'z3old'):
+            if sat_seen is not None and backend == 'z3-5.1-long':
+                continue
             for vi, text in enumerate(texts):
                 if time.time() - t_start > 3 * budget + 5:
                     break
@@ -178,12 +183,13 @@ def solve_one(job):
                 if st == 'unsat':
                     verdict = 'unsat'
                     break
-                if st == 'sat':
-                    verdict = 'sat'
-                    model = info.get('model') if isinstance(info, dict) else None
-                    break
+                if st == 'sat' and sat_seen is None:
+                    sat_seen = (info.get('model') if isinstance(info, dict) else None) or {}
             if verdict is not None:
                 break
+    if verdict is None and sat_seen is not None:
+        verdict = 'sat'
+        model = sat_seen or None
     if verdict is None:
         sts = set(a['status'] for a in attempts)
         verdict = 'error' if sts == {'error'} else 'unknown'
